@@ -279,6 +279,11 @@ def run_C16(ctx, E):
     stage_record_trace(ctx, E, "listings", "C16_Trace", "C16_Trace.cfg", heap="16g")
 
 
+def run_C01(ctx, E):
+    stage_mc_replay(ctx, E, "layouts", "C01_MC", "C01_MC.cfg")
+    stage_record_trace(ctx, E, "files", "C01_Trace", "C01_Trace.cfg", heap="16g", timeout=3000)
+
+
 def run_C10(ctx, E):
     ctx.exhaustive = True
     for e in (("e1", "e2", "e4") if ctx.tier == "quick" else ("e1", "e2", "e3", "e4")):
@@ -296,6 +301,25 @@ _seqhash_note = ("trusted: TLC, community modules; the digest is uninterpreted i
                  "in the replayer by a from-scratch BLAKE3 transcription pinned by the official test vectors; "
                  "double-stranded inputs containing Z or (under type DNA) U are outside the strand clause and not replayed")
 PROPS = {
+    "C01": dict(run=run_C01,
+                technique="TLC evaluation of an independent GenBank flat-file writer (layout styles) and reader "
+                          "(GenbankFormat.tla) with the theorem Read(Write(R, style)) = Expected(R); every laid-out file "
+                          "replayed through Parse / Read / ParseMulti / ParseFlat; recorded large files from the harness's "
+                          "writer re-read by the specification's reader and judged by C01_Trace",
+                level_text="three abstract records holding the cases the property names (lower-case / two-letter names, "
+                           "two-digit lengths, DNA / mRNA / tRNA, features without qualifiers, multi-line locations, "
+                           "qualifier values with '/' and '=', wrapping values, flag / unquoted qualifiers, glued "
+                           "/translation, 0..2 references with remark, COMMENT and DBLINK) x 16 layout styles: the "
+                           "specification's reader recovers Expected(R) from each, all lines <= 80 columns, and the real "
+                           "parsers must return Expected(R) field by field for the single record, through a file, and for "
+                           "files of 1..3 records with / without final newline and with the 10-line flat-file header; "
+                           "recorded: 30 (quick) / 300 (thorough) files from the harness's writer with random records "
+                           "(sequences to 3000 / 10^5 bases, 0..12 / 0..40 features, 0..5 references, 1..5 records), each "
+                           "first record re-read by the specification's reader (files up to 700 lines)",
+                level_note="trusted: TLC, community modules, the projection of poly.Sequence; qualifier and extra-keyword "
+                           "maps are compared as sets of pairs (qualifier keys unique per feature in the domain); the "
+                           "ORIGIN block of very large files is not re-read letter by letter by TLC above 700 lines",
+                rule="S->I: one case per (record, style), 13 parser entry points each; I->S: one event per generated file"),
     "C16": dict(run=run_C16,
                 technique="TLC evaluation of an independent REBASE format-31 writer and reader (RebaseFormat.tla) with the "
                           "theorem Read(Lines(x)) = x; every laid-out listing replayed on rebase.Parse / Read / Export; "
